@@ -237,10 +237,6 @@ tl::expected<std::string, errors> canonicalize_protocol(
     return "";
   }
 
-  if (input.ends_with(":")) {
-    input.remove_suffix(1);
-  }
-
   // Fast path: special schemes are already canonical
   if (scheme::is_special(input)) {
     return std::string(input);
